@@ -201,14 +201,16 @@ def build_ld(cpu, r, rng, regime, ee):
     return tested, descs, 'T0SZ%d/T1SZ%d' % (t0, t1)
 
 
-def decision(spec):
+def decision(spec, pid=ID, host_only=False):
+    """host_only (used by C18): the same generated table sets and addresses, judged for one thing only - whether
+    translate_address() ends in anything but a physical address, a Data Abort or the documented not-implemented error"""
     from vf import lockstep, machine as M, observe
     from vf.ref.model import RefCPU, RefAbort, RefUnpredictable, RefNotModelled
     from vf.ref import mem as RM
     from vf.ref import step as RS
     from armulator.armv6.arm_exceptions import DataAbortException
-    rng = rng_for(ID, 'decision', spec['seed'], spec['shard'])
-    ls = lockstep.LockStep(ID, rng)
+    rng = rng_for(pid, 'decision', spec['seed'], spec['shard'])
+    ls = lockstep.LockStep(pid, rng)
     res = ls.res
     res['sets']['outcomes'] = set()
     vctx = {}
@@ -354,6 +356,14 @@ def decision(spec):
             res['sets']['outcomes'].add(oc)
             res['nontrivial'].add(oc + '|n%d|afe%d' % (n, r.sctlr.afe))
             why = None
+            if host_only:
+                ls.bump('walks_' + got[0])
+                if got[0] == 'host':
+                    ls.report('%s|host-error-in-translation|%s|%s' % (pid, got[1], fmt),
+                              'fmt %s va %#x N=%d TTBCR=%#x DACR=%#x SCTLR.afe/tre/ee=%d%d%d priv=%d write=%d descs %s: %s escaped translate_address()' % (
+                                  fmt, va, n, r.ttbcr.value, r.dacr.value, r.sctlr.afe, r.sctlr.tre, ee, ispriv, iswrite, descs, got[1]),
+                              dict(va=va, n=n))
+                continue
             if got[:2] != exp[:2]:
                 why = 'outcome %s, reference %s' % (got[:2], exp)
             else:
